@@ -14,7 +14,7 @@
 EXTENDS OPWorld, FiniteSetsExt, SequencesExt
 
 VARIABLES
-  cfg,       \* [router : {"P","L"}, post, pkjwt, refresh : BOOLEAN]  provider configuration
+  cfg,       \* [router : {"P","L"}, post, pkjwt, refresh, cc, te, dev : BOOLEAN, policy : [deny, defType, imp, drop]]
   reqs,      \* request name |-> [client, uri, rtype, rmode, scopes, state, nonce, chall, done, sub, used]
   codes,     \* code name |-> request name
   redeemed,  \* set of code names that yielded tokens
@@ -38,12 +38,12 @@ NoIdt == [name |-> "none", sub |-> "none", aud |-> <<>>, azp |-> "none", nonce |
 NoOut == [class |-> "none", status |-> 0, err |-> "none", doc |-> FALSE, req |-> "none", target |-> "none",
           channel |-> "none", state |-> "none", code |-> "none", at |-> NoTok, rt |-> NoRt, idt |-> NoIdt,
           scope |-> <<>>, sub |-> "none", rotated |-> "none", bare |-> TRUE, dc |-> "none", uc |-> "none",
-          journal |-> <<>>]
+          journal |-> <<>>, issuedType |-> "", actor |-> "none"]
 
 Init0 ==
   /\ reqs = Empty /\ codes = Empty /\ redeemed = {} /\ toks = Empty /\ rts = Empty /\ idts = Empty
   /\ devs = Empty /\ viol = {}
-  /\ cnt = [r |-> 0, k |-> 0, a |-> 0, f |-> 0, i |-> 0, d |-> 0]
+  /\ cnt = [r |-> 0, k |-> 0, a |-> 0, f |-> 0, i |-> 0, d |-> 0, n |-> 0]
 
 -----------------------------------------------------------------------------
 (* Token strings presented to the provider (C08): tok = [form, id]            *)
@@ -198,6 +198,7 @@ RulesCodeExchange(a, o) ==
     <<"C04.code.once",    ok => a.code \notin redeemed>>,
     <<"C04.tokensMatch",  (ok /\ known) => TokensMatchReq(o, r)>>,
     <<"C05.code.grant",   ok => (a.caller \in Clients /\ "code" \in Reg[a.caller].grants)>>,
+    <<"C05.code.auth",    ok => (a.caller \in Clients /\ ~BadCred(a.caller, a.cred))>>,
     <<"C05.refused.doc",  (~ok) => (o.status >= 400 /\ o.doc)>> }
 
 RulesRefresh(a, o) ==
@@ -211,6 +212,8 @@ RulesRefresh(a, o) ==
     <<"C07.refresh.auth",   ok => (a.caller \in Clients /\ AuthOK(a.caller, a.cred))>>,
     <<"C07.refresh.grant",  ok => (a.caller \in Clients /\ "refresh" \in Reg[a.caller].grants)>>,
     <<"C07.refresh.enabled", ok => cfg.refresh>>,
+    <<"C05.refresh.auth",   ok => (a.caller \in Clients /\ ~BadCred(a.caller, a.cred))>>,
+    <<"C05.refresh.grant",  ok => (a.caller \in Clients /\ "refresh" \in Reg[a.caller].grants /\ cfg.refresh)>>,
     <<"C07.refresh.subset", (ok /\ known) => want \subseteq r.scopes>>,
     <<"C07.refresh.invalidScope",
         (known /\ r.live /\ a.caller = r.client /\ Clean(a.caller, a.cred) /\ cfg.refresh
@@ -264,10 +267,13 @@ RulesPoll(a, o) ==
       mine == known /\ d.client = a.caller
       authed == a.caller \in Clients /\ AuthOK(a.caller, a.cred)
                   /\ ~(IsConfidential(a.caller) /\ a.cred.kind = "none")
-      clean == Clean(a.caller, a.cred) IN
+      \* expectation rules: the registered presentation of a client that may use the device grant at all
+      clean == Clean(a.caller, a.cred) /\ "device" \in Reg[a.caller].grants /\ cfg.dev IN
   { <<"C16.poll.approved", ok => (known /\ d.status = "done")>>,
     <<"C16.poll.client",   ok => mine>>,
     <<"C16.poll.auth",     ok => authed>>,
+    <<"C05.poll.auth",     ok => (a.caller \in Clients /\ ~BadCred(a.caller, a.cred))>>,
+    <<"C05.poll.grant",    ok => (a.caller \in Clients /\ "device" \in Reg[a.caller].grants /\ cfg.dev)>>,
     <<"C16.poll.subject",  (ok /\ known) => (o.at.sub = d.sub /\ Range(o.at.scopes) = d.scopes /\ o.at.client = d.client)>>,
     <<"C16.poll.pending",  (mine /\ clean /\ ~a.slow /\ d.status = "pending" /\ ~d.expired) =>
                               (o.class = "json" /\ o.err = "authorization_pending")>>,
@@ -277,6 +283,58 @@ RulesPoll(a, o) ==
     <<"C16.poll.slow",     (mine /\ clean /\ a.slow) => (o.class = "json" /\ o.err = "slow_down")>>,
     <<"C16.poll.foreign",  (~mine) => (o.class = "json" /\ o.status >= 400)>>,
     <<"C05.refused.doc",   (~ok) => (o.status >= 400 /\ o.doc)>> }
+
+\* Token references of a token-exchange request: [kind, form, id, declared]
+\*   kind (what the string really is): access | refresh | id ; declared: access | refresh | id | jwt | unknown
+LiveRef(t) ==
+  /\ t.declared = t.kind
+  /\ CASE t.kind = "access"  -> LiveAT([form |-> t.form, id |-> t.id])
+        [] t.kind = "refresh" -> t.form = "issued" /\ LiveRT(t.id)
+        [] t.kind = "id"      -> t.form = "valid" /\ Has(idts, t.id)
+        [] OTHER -> FALSE
+SubOfRef(t) == CASE t.kind = "access" -> toks[t.id].sub [] t.kind = "refresh" -> rts[t.id].sub [] OTHER -> idts[t.id].sub
+
+IssuableTypes == {"access", "refresh", "id"}
+
+RulesTokenExchange(a, o) ==
+  LET ok == o.class = "tokens"
+      eff == IF a.requested = "" THEN cfg.policy.defType ELSE a.requested     \* the type the store's policy settles on
+      hasActor == a.actor.kind # "none"
+      wantSub == IF cfg.policy.imp # "" THEN cfg.policy.imp ELSE SubOfRef(a.subj)
+      wantScopes == Range(a.scopes) \ {cfg.policy.drop} IN
+  { <<"C05.te.auth",     ok => (a.caller \in Clients /\ IsConfidential(a.caller) /\ AuthOK(a.caller, a.cred))>>,
+    <<"C05.te.grant",    ok => (a.caller \in Clients /\ "te" \in Reg[a.caller].grants /\ cfg.te)>>,
+    <<"C15.subject.type", ok => a.subj.declared = a.subj.kind>>,
+    <<"C15.subject.live", (ok /\ a.subj.declared = a.subj.kind) => LiveRef(a.subj)>>,
+    <<"C15.actor.type",   (ok /\ hasActor) => a.actor.declared = a.actor.kind>>,
+    <<"C15.actor.live",   (ok /\ hasActor /\ a.actor.declared = a.actor.kind) => LiveRef(a.actor)>>,
+    <<"C15.veto",         ok => ~cfg.policy.deny>>,
+    <<"C15.issuable",     ok => eff \in IssuableTypes>>,
+    <<"C15.declares",     ok => o.issuedType = eff>>,
+    <<"C15.contains",     ok =>
+         CASE eff = "access"  -> o.at.name \notin {"none", "unknown"}
+           [] eff = "refresh" -> o.at.name \notin {"none", "unknown"} /\ o.rt.name \notin {"none", "unknown"}
+           [] eff = "id"      -> o.idt.name # "none" /\ o.idt.sig = "ok"
+           [] OTHER -> FALSE>>,
+    <<"C15.policy.subject", (ok /\ LiveRef(a.subj)) =>
+         /\ (o.at.name \notin {"none", "unknown"} => o.at.sub = wantSub /\ o.at.client = a.caller /\ Range(o.at.scopes) = wantScopes)
+         /\ (o.idt.name # "none" => o.idt.sub = wantSub)
+         /\ (o.rt.name \notin {"none", "unknown"} => o.rt.sub = wantSub /\ o.rt.client = a.caller)>>,
+    <<"C15.policy.actor", (ok /\ hasActor /\ LiveRef(a.actor)) => o.actor = SubOfRef(a.actor)>>,
+    <<"C05.refused.doc",  (~ok) => (o.status >= 400 /\ o.doc)>> }
+
+RulesClientCreds(a, o) ==
+  LET ok == o.class = "tokens" IN
+  { <<"C05.cc.auth",  ok => (a.caller \in Clients /\ a.cred.kind \in {"basic", "post"} /\ a.cred.secret = "right" /\ Reg[a.caller].auth \in {"basic", "post"})>>,
+    <<"C05.cc.grant", ok => (a.caller \in Clients /\ "cc" \in Reg[a.caller].grants /\ cfg.cc)>>,
+    <<"C05.cc.subject", ok => (o.at.sub = a.caller /\ o.at.client = a.caller)>>,
+    <<"C05.refused.doc",  (~ok) => (o.status >= 400 /\ o.doc)>> }
+
+RulesJWTBearer(a, o) ==
+  LET ok == o.class = "tokens" IN
+  { <<"C14.bearer.signer", ok => (a.iss \in Clients /\ Reg[a.iss].auth = "pkjwt" /\ a.key = "own")>>,
+    <<"C14.bearer.identity", ok => o.at.sub = a.iss>>,
+    <<"C05.refused.doc",  (~ok) => (o.status >= 400 /\ o.doc)>> }
 
 RulesEndSession(a, o) ==
   \* a.hint : [kind : none|valid|expired|wrongkey|wrongiss|algnone, id] ; a.client : "" or client ; a.uri : "" or name
@@ -304,6 +362,9 @@ Rules(e) ==
     [] e.op = "DeviceAuthorize" -> RulesDeviceAuthorize(e.args, e.out)
     [] e.op = "Poll"         -> RulesPoll(e.args, e.out)
     [] e.op = "EndSession"   -> RulesEndSession(e.args, e.out)
+    [] e.op = "TokenExchange" -> RulesTokenExchange(e.args, e.out)
+    [] e.op = "ClientCreds"  -> RulesClientCreds(e.args, e.out)
+    [] e.op = "JWTBearer"    -> RulesJWTBearer(e.args, e.out)
     [] OTHER -> {}
 
 \* rules that apply to every event, whatever the operation (C09 on the server side)
